@@ -62,7 +62,9 @@ def main():
         try:
             for c in checks:
                 res = {}
-                for tier in ["quick", "thorough"]:
+                # the first check is the one for the property the change breaks; the others are
+                # neighbours that may also notice: quick tier only
+                for tier in (["quick", "thorough"] if c == checks[0] else ["quick"]):
                     t0 = time.time()
                     rc, out = sh("./check %s --tier %s" % (c, tier), cwd="/verif", timeout=3600)
                     viol = sorted(set(re.findall(r"assert=(\S+)", out)))
